@@ -17,7 +17,53 @@ from ..eigstubs import EigWorld, sym_matrix, dense_of
 from .. import forksym as FS
 
 
+def build_panel_state(cfg, values=None):
+    """Panel.lb in its state-based form (stiffness at a state ckL, geometric stiffness at a state c, per-point laminate table): the
+    matrices handed to the solver are Panel.calc_k0(c=ckL, nx, ny, Fnxny) and Panel.calc_kG0(c=c, nx, ny, Fnxny) for the SAME
+    arguments, computed here by separate calls on a twin panel"""
+    from ..panelsym import PanelCtx
+    ctx = PanelCtx(values=values, seed=cfg.get('seed', 0))
+    model, m, n, nx, ny = cfg['model'], cfg['m'], cfg['n'], cfg['nx'], cfg['ny']
+    W = EigWorld(ctx.V, recip=True)
+    obs = []
+    with ctx.shadow(extra_stubs={'compmech.panel._panel.eigsh': W.eigsh}):
+        size = 3 * m * n
+
+        def table(p):
+            Fn = np.zeros((nx, ny, 6, 6), dtype=object)
+            for ix in range(nx):
+                for iy in range(ny):
+                    for i in range(6):
+                        for j in range(i, 6):
+                            Fn[ix, iy, i, j] = Fn[ix, iy, j, i] = ctx.V('T%d_%d_%d%d' % (ix, iy, i, j))
+                    for (i, j) in ((0, 1), (0, 2), (1, 2)):
+                        Fn[ix, iy, j, 3 + i] = Fn[ix, iy, 3 + i, j] = Fn[ix, iy, i, 3 + j]
+            return Fn
+        ckL = np.array([ctx.V('k%d' % q) for q in range(size)], dtype=object)
+        c = np.array([ctx.V('c%d' % q) for q in range(size)], dtype=object)
+        p = ctx.new_panel(model, m, n)
+        Fn = table(p)
+        p.num_eigvalues = 1
+        p.nx, p.ny = ny + 1, nx + 2
+        p.calc_k0(silent=True)
+        p.lb(silent=True, nx=nx, ny=ny, c=c, ckL=ckL, Fnxny=Fn)
+        call = W.calls[-1]
+        Md, Ad = dense_of(call['M']), dense_of(call['A'])
+        q_ = ctx.new_panel(model, m, n)
+        q_.calc_k0(silent=True)
+        K = dense_of(q_.calc_k0(c=ckL, nx=nx, ny=ny, Fnxny=Fn, silent=True))
+        G = dense_of(q_.calc_kG0(c=c, nx=nx, ny=ny, Fnxny=Fn, silent=True))
+        for i in range(size):
+            for j in range(size):
+                obs.append(('solver-stiffness-matrix[%d,%d]' % (i, j), Md[i, j], K[i, j]))
+                obs.append(('solver-load-matrix[%d,%d]' % (i, j), Ad[i, j], G[i, j]))
+    info = {'values': {k: str(v) for k, v in ctx.used_values.items()}}
+    return obs, [], info
+
+
 def build(cfg, values=None):
+    if cfg.get('target') == 'Panel.lb-state-based':
+        return build_panel_state(cfg, values)
     return build_conecyl(cfg, values)
 
 
@@ -184,7 +230,7 @@ def build_conecyl(cfg, values=None):
 
 
 def job(cfg):
-    if cfg.get('target') == 'ConeCyl.lb':
+    if cfg.get('target') in ('ConeCyl.lb', 'Panel.lb-state-based'):
         from .. import kprop
         return kprop.job((__name__, cfg))
     reset()
@@ -386,6 +432,9 @@ def configs(tier, seed):
                                     'group': '%s:%s' % (target, path), 'm': n, 'variant': '%s/num=2/n=%d/u=%d/KG-null-on-2-more' % (path, n, u)})
     out[0]['canary'] = True
     out[-1]['canary'] = True
+    for model in ('plate', 'cpanel'):
+        out.append({'target': 'Panel.lb-state-based', 'model': model, 'm': 1, 'n': 2, 'nx': 1, 'ny': 2, 'num': 1, 'active': [], 'path': 'sparse',
+                    'group': 'Panel.lb-state-based:%s' % model, 'variant': 'panel-state/%s' % model, 'timeout_ms': 300000})
     for case in (None, 1, 2, 3):
         out.append({'target': 'ConeCyl.lb', 'case': case, 'num': 2, 'n': 12, 'active': [], 'path': 'sparse', 'group': 'ConeCyl.lb:combined_load_case=%s' % case,
                     'm': 1, 'variant': 'conecyl/case=%s' % case})
@@ -413,10 +462,10 @@ def main():
                    'sizes above 7']
     res = pmap(job, cf)
     from .. import kprop
-    kprop.handle(run, [r for r in res if r['cfg'].get('target') == 'ConeCyl.lb'], build, 'obligations of the shell buckling wrapper fail')
+    kprop.handle(run, [r for r in res if r['cfg'].get('target') in ('ConeCyl.lb', 'Panel.lb-state-based')], build, 'obligations of the buckling wrapper fail')
     for r in res:
         cfg = r['cfg']
-        if cfg.get('target') == 'ConeCyl.lb':
+        if cfg.get('target') in ('ConeCyl.lb', 'Panel.lb-state-based'):
             continue
         if r.get('raised'):
             run.obligations += 1
